@@ -40,6 +40,8 @@ ASSUMPTIONS = [
     '(any other string operation on one aborts the run as unsupported)',
     'starting history of an evaluation: arbitrary subject to H[j] present <=> H[j!!!] present (shown inductive by an obligation on every returned history)',
     'HashSet/HashMap iteration follows insertion order (hash-order nondeterminism is outside the claim)',
+    'z3 is trusted for QF_UF; every n-th query (n = 400 quick / 40 thorough, counted per universe) is re-decided by cvc5 from an SMT-LIB2 '
+    'dump (solver.by_class["cvc5-crosscheck"]); a disagreement makes the run inconclusive',
     'cleanup blocks / unwinding paths are not executed: a panic ends the run and is reported',
 ]
 
